@@ -154,6 +154,8 @@ func runCaseEx(c *Case) (out *Outcome, classes []string, err error) {
 			Detail: e.detail(nil)}
 	}
 	o.NonTrivial = e.nonTrivial()
+	o.OnErrors = len(e.events.errors)
+	o.LastErrors = lastN(e.events.errors, 2)
 	o.PolicyKind = fmt.Sprintf("%s/sticky=%v", c.Policy.Kind, c.Policy.Sticky)
 	{
 		cc := *c
